@@ -325,7 +325,9 @@ func c19Closed(w *World, r *Report, s safeType) {
 	r.Check(good && nret > 0, "R19.1", key, pos, "Closed returns the flag and does nothing else", "Closed does not simply return the flag field")
 }
 
-func c19Writers(w *World, r *Report, s safeType) {
+func c19Writers(w *World, r *Report, s safeType) { c19WritersRule(w, r, "R19.2", s) }
+
+func c19WritersRule(w *World, r *Report, rule string, s safeType) {
 	key := "field:" + qualName(s.T) + "." + s.Flag.Name()
 	var bad []string
 	n := 0
@@ -347,7 +349,7 @@ func c19Writers(w *World, r *Report, s safeType) {
 		}
 	})
 	sort.Strings(bad)
-	r.Check(len(bad) == 0, "R19.2", key, w.Pos(s.Flag.Pos()), fmt.Sprintf("%d store(s), all inside %s", n, funcKey(s.Close)),
+	r.Check(len(bad) == 0, rule, key, w.Pos(s.Flag.Pos()), fmt.Sprintf("%d store(s), all inside %s", n, funcKey(s.Close)),
 		fmt.Sprintf("flag stored outside its Close: %v", bad), "stores", n)
 }
 
@@ -899,5 +901,18 @@ func ruleSafeCloseSetsFlag(w *World, r *Report, rule string) {
 	}
 	for _, st := range sts {
 		c19CloseRule(w, r, rule, st)
+	}
+}
+
+// ruleClosedFlagOnlyByClose: nothing but Close sets a wrapper's closed flag (registered under C14 too: a flag set
+// by Read makes every later Close / TryClose a no-op, so the descriptor is never released).
+func ruleClosedFlagOnlyByClose(w *World, r *Report, rule string) {
+	sts := findSafeTypes(w)
+	if len(sts) == 0 {
+		r.Undecided(rule, "safetypes", "-", "no flag-carrying wrapper found in package streams")
+		return
+	}
+	for _, st := range sts {
+		c19WritersRule(w, r, rule, st)
 	}
 }
